@@ -124,6 +124,8 @@ SPEC = {
         "define_undef_scoping", "macro_names_always_distinct", "api_defines_equal_file_defines",
         "expand_refines_spec_partial", "expand_refines_spec", "expand_refines_spec_decided", "object_like_refines_spec",
         "trailing_function_name_is_invoked", "paste_is_single_token", "paste_matches_lexer",
+        "parse_yields_wellformed_macro", "directive_takes_effect_from_its_line",
+        "api_defines_equal_file_defines_tokens", "include_of_empty_file",
         "include_is_paste", "pragma_once_once",
         "differs_line_end_before_parenthesis", "differs_unused_argument_expanded", "differs_argument_repainted",
         "differs_painted_function_name_reinvoked", "differs_painted_function_name_reinvoked_acyclic",
